@@ -223,6 +223,16 @@ def run_shard(ctx):
                 ctx.count("runs_with_a_logger")
             if i % 10 == 7:
                 case["v"] = [0] * len(case["v"])  # event-free stream
+            if i % 7 == 4 and case["saver"] is None:
+                case["close_fault"] = True  # closing the source fails after a normal end of stream: observers must still be told to stop
+                ctx.count("runs_with_a_failing_close")
+            if i % 5 == 1:
+                case["start_order"] = "tokenizer-first"
+                ctx.count("runs_started_tokenizer_first")
+            if i % 4 == 3 and case["observers"]:
+                # a blocking wait (timeout=None) is a legal queue timeout
+                case["observer_timeouts"] = [None if (i + k) % 2 else t for k, t in enumerate(case["observer_timeouts"])]
+                ctx.count("runs_with_blocking_observer_waits")
             if i % 6 == 2 and case["observers"]:
                 # one observer dies while processing a message: the healthy ones must still get everything and all threads end
                 k = rng.randrange(len(case["observers"]) + 1)
@@ -256,7 +266,7 @@ def inconclusive(merged, tier):
     c = merged["counters"]
     need = ["scheduled_runs", "messages_checked", "timeouts_fired", "context_switches", "line_mode_runs", "line_preemptions",
             "stress_runs", "stress_messages_checked", "systematic_schedules", "systematic_pipelines_fully_enumerated", "observers_checked_rec", "observers_checked_print",
-            "observers_checked_regionsaver", "observers_checked_joiner", "runs_with_stream_saver", "runs_with_long_bursts_of_detections", "runs_with_a_logger", "observers_that_died_mid_stream"] + ["strategy_" + s for s in P.S.NAMES]
+            "observers_checked_regionsaver", "observers_checked_joiner", "runs_with_stream_saver", "runs_with_long_bursts_of_detections", "runs_with_a_logger", "observers_that_died_mid_stream", "runs_with_a_failing_close", "runs_started_tokenizer_first", "runs_with_blocking_observer_waits"] + ["strategy_" + s for s in P.S.NAMES]
     out = [f"monitor never observed {k}" for k in need if c.get(k, 0) == 0]
     if c.get("inconclusive_runs", 0) > max(3, c.get("scheduled_runs", 0) // 50):
         out.append(f"{c['inconclusive_runs']} runs hit a step/wall cap")
